@@ -188,16 +188,22 @@ def ev_pop(sim):
     return sim.it.pop(t)
 
 
+def _label(t) -> str:
+    """labels as the toolkit's own callers build them (MemoizingInterpreter: str(pattern); ProofExp.load_axiom:
+    'Axiom ' + str(axiom)): not injective -- constraints of a metavariable are not printed"""
+    return f'Axiom {t.conclusion}' if isinstance(t, Proved) else str(t)
+
+
 def ev_save(sim):
     (t,) = _top(sim, 1)
-    return sim.it.save(f'm{len(sim.it.memory)}', t)
+    return sim.it.save(_label(t), t)
 
 
 def ev_load(i):
     def f(sim):
         if i >= len(sim.it.memory):
             raise Inapplicable()
-        return sim.it.load(f'm{i}', sim.it.memory[i])
+        return sim.it.load(_label(sim.it.memory[i]), sim.it.memory[i])
     return f
 
 
